@@ -43,6 +43,9 @@ func main() {
 		cmdRun(os.Args[2:])
 	case "check":
 		cmdCheck(os.Args[2:])
+	case "uf":
+		b, _ := os.ReadFile(os.Args[2])
+		fmt.Print(toUF(string(b)))
 	default:
 		fmt.Fprintln(os.Stderr, "unknown command")
 		os.Exit(2)
@@ -111,4 +114,3 @@ func cmdRun(args []string) {
 	}
 	fmt.Printf("%d/%d discharged in %.1fs (solver time %.1fs) %v\n", nd, len(obls), time.Since(t1).Seconds(), d.total, d.stats)
 }
-
